@@ -79,6 +79,9 @@ func whRun(cs *whCase, r *gen.Rand) {
 		case "upload":
 			sec += 10
 			s.ID = kid(r, sec)
+			if s.Older { // uploaded now under an id older than every bundle so far: id order is not upload order
+				s.ID = kid(r, 500+int64(len(ids)))
+			}
 			_, err = w.Upload(s.Repo, world.Consumable(s.Files), world.UploadOpts{LeafSize: 64, BundleID: s.ID, Message: "h"})
 			if err == nil {
 				ids = append(ids, s.ID)
@@ -105,6 +108,13 @@ func whRun(cs *whCase, r *gen.Rand) {
 			w.PutBundle(s.Repo, s.ID, s.Entries, 1000, false)
 		case "setlabel":
 			l := core.NewLabel(core.LabelDescriptor(model.NewLabelDescriptor(model.LabelName(s.Name))))
+			b := core.NewBundle(core.Repo(s.Repo), core.ContextStores(st), core.BundleID(bundleID()), core.Logger(world.Nop))
+			s.ID = bundleID()
+			err = l.UploadDescriptor(ctx, b)
+		case "movelabel": // the same Label value, as downloaded, is uploaded again for another bundle
+			l := core.NewLabel(core.LabelDescriptor(model.NewLabelDescriptor(model.LabelName(s.Name))))
+			b0 := core.NewBundle(core.Repo(s.Repo), core.ContextStores(st), core.Logger(world.Nop))
+			_ = l.DownloadDescriptor(ctx, b0, true)
 			b := core.NewBundle(core.Repo(s.Repo), core.ContextStores(st), core.BundleID(bundleID()), core.Logger(world.Nop))
 			s.ID = bundleID()
 			err = l.UploadDescriptor(ctx, b)
@@ -192,7 +202,7 @@ func whCoq(cs *whCase) string {
 			op, obs = fmt.Sprintf("OUpload %s %s %s", S(s.Repo), S(s.ID), entriesCoq(s.Entries)), "WRes true"
 		case "leftover":
 			op, obs = fmt.Sprintf("OLeftover %s %s %s", S(s.Repo), S(s.ID), entriesCoq(s.Entries)), "WRes true"
-		case "setlabel":
+		case "setlabel", "movelabel":
 			op, obs = fmt.Sprintf("OSetLabel %s %s %s", S(s.Repo), S(s.Name), S(s.ID)), res
 		case "getlabel":
 			op, obs = fmt.Sprintf("OGetLabel %s %s", S(s.Repo), S(s.Name)), str
@@ -308,7 +318,11 @@ func whGen(prop string, r *gen.Rand, first bool) *whCase {
 			}
 			switch r.Intn(6) {
 			case 0, 1:
-				steps = append(steps, whStep{Op: "setlabel", Repo: repo, Name: name, Bundle: b, Judge: r.Chance(1, 4)})
+				op := "setlabel"
+				if r.Chance(1, 3) {
+					op = "movelabel"
+				}
+				steps = append(steps, whStep{Op: op, Repo: repo, Name: name, Bundle: b, Judge: r.Chance(1, 4)})
 			case 2:
 				steps = append(steps, whStep{Op: "dellabel", Repo: repo, Name: name, Bundle: -1})
 			case 3:
@@ -328,6 +342,12 @@ func whGen(prop string, r *gen.Rand, first bool) *whCase {
 			cs.Sig = "delete-entries-multi-index"
 			return cs
 		}
+		if r.Chance(1, 2) { // labels that point at no committed bundle
+			for j := 0; j < r.Range(1, 2); j++ {
+				steps = append(steps, whStep{Op: "setlabel", Repo: repos[r.Intn(len(repos))], Name: []string{"dangling", "0.9.0", "gone"}[r.Intn(3)], Bundle: -1})
+			}
+			steps = append(steps, whStep{Op: "setlabel", Repo: target, Name: "dangling-t", Bundle: -1})
+		}
 		switch r.Intn(3) {
 		case 0:
 			steps = append(steps, whStep{Op: "delrepo", Repo: target, Bundle: -1, Judge: true})
@@ -339,10 +359,19 @@ func whGen(prop string, r *gen.Rand, first bool) *whCase {
 			steps = append(steps, whStep{Op: "rename", Repo: target, Repo2: to, Bundle: -1, Judge: true})
 		default:
 			paths := []string{"common.txt", "d0/f0", "d1/f1", "nothing/here"}
+			if pm := r.Perm(len(paths)); r.Bool() {
+				paths = []string{paths[pm[0]], paths[pm[1]], paths[pm[2]], paths[pm[3]]}
+			}
 			for j := 0; j < r.Intn(3); j++ { // the same paths in several bundles
 				fs := append(whTree(r, r.Range(1, 3)), world.File{Name: "common.txt", Data: []byte("shared")})
 				if fs[len(fs)-2].Name == "common.txt" {
 					fs = fs[:len(fs)-1]
+				}
+				// paths that differ from the deleted ones by leading dots, a suffix or their case
+				for _, tw := range []string{".common.txt", "..common.txt", ".d0/f0", "d0/f0.bak", "Common.txt", "d0/.f0", "x/common.txt"} {
+					if r.Chance(1, 3) {
+						fs = append(fs, world.File{Name: tw, Data: []byte("twin " + tw)})
+					}
 				}
 				steps = append(steps, whStep{Op: "upload", Repo: target, Files: fs, Bundle: -1})
 			}
@@ -355,6 +384,11 @@ func whGen(prop string, r *gen.Rand, first bool) *whCase {
 	case "C10":
 		steps, repos, byRepo := whPrologue(r, 7)
 		target := repos[r.Intn(len(repos))]
+		if r.Chance(1, 2) { // bundles uploaded late under ids older than the rest
+			for j := 0; j < r.Range(1, 2); j++ {
+				steps = append(steps, whStep{Op: "upload", Repo: target, Files: whTree(r, r.Range(1, 3)), Bundle: -1, Older: true})
+			}
+		}
 		if bs := byRepo[target]; len(bs) > 0 { // several labels (semver and not) on one old bundle; a label on a bundle that does not exist
 			old := bs[r.Intn((len(bs)+1)/2)]
 			for j := 0; j < r.Intn(4); j++ {
